@@ -123,6 +123,51 @@ theorem all_accepted_are_applied (v : Svc) (hreach : ∃ m b t steps, v = run (m
   rw [← hem]
   exact (C24.emitted_is_prefix_of_written _ hi.reach).2 hin
 
+/-! #### ... for EVERY schedule, with any finite number of `Execute` failures
+
+A schedule is any list of steps of the queue loop and of `runQueue` (`send`, `recv`, `fire`,
+`take`, `execOk`, and `execFail k` for any error kind), in any order, each enabled when taken
+(`runS`). Failing `Execute` calls change nothing; every other step lowers `nu`. -/
+
+/-- **Only failures can prolong a schedule**: the number of steps that are not failed `Execute`
+calls is at most `nu v`, whatever the order and however many failures are interleaved. -/
+theorem every_schedule_terminates (v v' : Svc) (hreach : ∃ m b t steps, v = run (mk m b t) steps)
+    (sched : List SStep) (hrun : runS v sched = some v') :
+    (sched.filter (fun st => !st.isFail)).length ≤ nu v := by
+  obtain ⟨m, b, t, steps, rfl⟩ := hreach
+  have := (runS_spec sched _ v' (inv m b t steps) hrun).2.1
+  omega
+
+/-- **Every maximal schedule applies everything accepted.** From any reachable running state of
+a queue with a timeout: take the loop's, the timer's and the consumer's steps in ANY order,
+with ANY finite number of failed `Execute` calls of any kind in between; once nothing but a
+further failure could happen (fairness: `Execute` eventually succeeds — "a leader is
+reachable" — so the run does not stop earlier), every accepted statement has been applied, in
+acceptance order, and nothing is left anywhere. (Exactly-once under `lostAcks = 0`.) -/
+theorem every_maximal_schedule_applies_everything (v v' : Svc)
+    (hreach : ∃ m b t steps, v = run (mk m b t) steps)
+    (hq : v.q.stopped = false) (hv : v.stopped = false) (ht : v.q.timeout ≠ 0) (h0 : v.lostAcks = 0)
+    (sched : List SStep) (hrun : runS v sched = some v') (hqs : QuiescentS v') :
+    v'.applied.flatten = v.q.written.flatMap (·.objs) ∧ v'.cur = none ∧ C24.inflight v'.q = [] := by
+  obtain ⟨m, b, t, steps, rfl⟩ := hreach
+  obtain ⟨hi, _, he, hfl⟩ := runS_spec sched _ v' (inv m b t steps) hrun
+  simp only [env, Prod.mk.injEq] at he
+  simp only [flags, Prod.mk.injEq] at hfl
+  have hq' : v'.q.stopped = false := by rw [he.1]; exact hq
+  have hv' : v'.stopped = false := by rw [hfl.1]; exact hv
+  have ha := allApplied_of_quiescent v' hq' hv' hqs
+  have hqo : v'.q.qObjs = [] := by
+    by_cases hqo : v'.q.qObjs = []
+    · exact hqo
+    · have := hi.reach.armed hq' (by rw [he.2.1]; exact ht) hqo
+      rw [ha.settled.timer] at this; cases this
+  have hin := C24.inflight_nil_of_settled _ ha.settled hqo
+  refine ⟨?_, ha.cur, hin⟩
+  rw [applied_eq_done _ hi (by rw [hfl.2]; exact h0), ← he.2.2]
+  have hem : v'.q.emitted = v'.done := by rw [hi.emitted, ha.cur]; simp [optL]
+  rw [← hem]
+  exact (C24.emitted_is_prefix_of_written _ hi.reach).2 hin
+
 /-- **A waiting request returns only after its batch was applied.** Every flush
 channel that has been closed belongs to a write that is a member of a fully
 processed request — one whose statements (if it has any) were passed to an
